@@ -13,6 +13,8 @@ def run(m, tier):
                                                           "conditional lines inside an included file are otherwise treated as comments although handling is enabled"))
     from rules import reader_interp
     results.append(reader_interp.omp_rule(m, "C15.R7", tier))
+    from rules import prog_rules
+    results.append(prog_rules.conditional_rule(m, "C15.R8", tier))
     expl = ("Decides structural clauses of C15: the three sentinel regex literals built in set_format (folded statically) accept "
             "exactly the sentinel forms of the property ('!$', 'c$', 'C$', '*$' in columns 1-2 plus a valid label/continuation field in "
             "fixed form; '!$ ' after optional blanks in free form) and reject '!$omp'-style directives; group 1 is the 2-character "
